@@ -93,6 +93,7 @@ const lex_en_main int = 89
 type lexer struct {
 	data     string
 	p, pe, m int
+	depth    int
 	id       string
 }
 
